@@ -166,6 +166,7 @@ impl Sched {
 
     /// Block until this simulated thread holds the baton. The last thread to arrive starts the run.
     pub fn thread_start(&self, tid: usize) {
+        let _quiet = crate::seams::AllocPointsSuspended::new();
         let mut s = self.lock();
         s.os_tids[tid] = unsafe { libc::syscall(libc::SYS_gettid) } as i32;
         s.started += 1;
@@ -231,6 +232,7 @@ impl Sched {
     }
 
     pub fn set_in_call(&self, tid: usize, v: bool) {
+        let _quiet = crate::seams::AllocPointsSuspended::new();
         self.lock().in_call[tid] = v;
     }
 
@@ -248,6 +250,7 @@ impl Sched {
     }
 
     fn point_inner(&self, tid: usize, site: &'static str, may_crash: bool) {
+        let _quiet = crate::seams::AllocPointsSuspended::new();
         let mut s = self.lock();
         if s.abort.is_some() {
             drop(s);
@@ -298,6 +301,7 @@ impl Sched {
     }
 
     pub fn thread_done(&self, tid: usize) {
+        let _quiet = crate::seams::AllocPointsSuspended::new();
         let mut s = self.lock();
         s.status[tid] = Status::Done;
         if s.current == Some(tid) || s.current.is_none() {
